@@ -672,7 +672,13 @@ func (g *gen) pathValue(depth int) any {
 	return xs
 }
 
-func (g *gen) jsonLit(v any) string { bs, _ := json.Marshal(jsonable(v)); return string(bs) }
+func (g *gen) jsonLit(v any) string {
+	var sb strings.Builder
+	enc := json.NewEncoder(&sb)
+	enc.SetEscapeHTML(false)
+	_ = enc.Encode(jsonable(v))
+	return strings.TrimRight(sb.String(), "\n")
+}
 
 // jsonable maps a Go value of the pool to something encoding/json prints as a gojq literal (NaN/Inf/big
 // become expressions later; here they are replaced by neighbours that are literals)
@@ -718,7 +724,7 @@ func (g *gen) wrap(q string) string {
 // structuredCase returns a query and its input. k selects the family (systematic sweeps pass k and size).
 func (g *gen) structuredCase(k, size int) (string, any) {
 	qs := func(s string) string { return g.jsonLit(s) }
-	switch k % 12 {
+	switch k % nFamilies {
 	case 0: // broken-down time of every length, mostly numeric
 		f := timeFuncs[g.r.Intn(len(timeFuncs))]
 		f = strings.ReplaceAll(f, "%F", qs(timeFormats[g.r.Intn(len(timeFormats))]))
@@ -814,13 +820,37 @@ func (g *gen) structuredCase(k, size int) (string, any) {
 		return g.wrap(f), g.value(3)
 	case 10: // implode / explode / string functions on out-of-range and wrong-typed data
 		f := g.pick([]string{"implode", "implode | explode", "map(implode?)", "[.[]?] | implode", "explode | implode", "explode | map(. + 1) | implode", "explode | map(. * 1000) | implode", "[.[]? | [.] | implode?]", "implode | @json", "implode | ascii_downcase", "implode | test(\"a\")", "implode | utf8bytelength", "implode | ltrimstr(\"a\")", "implode | @uri", "implode | @base32 | @base32d", "implode | @base64 | @base64d", "implode | tojson | fromjson", "implode | split(\"\")", "implode | [splits(\"\")]", "implode | .[1:-1]", "implode | ascii", "implode | trim"})
-		_, in := g.structuredCase(6+12*1, size) // reuse the code point arrays of family 6 often enough
+		_, in := g.structuredCase(6, size) // reuse the code point arrays of family 6 often enough
 		if g.r.Chance(1, 2) {
 			xs := make([]any, size)
 			for i := range xs {
 				xs[i] = []any{0, 65, 0xd800, 0xdfff, 0x10ffff, 0x110000, -1, math.MaxInt64, 1.5, math.NaN(), bigOf("18446744073709551616"), "a", nil}[g.r.Intn(13)]
 			}
 			in = xs
+		}
+		return g.wrap(f), in
+	case 12: // generated regular expressions: out-of-order / overlapping / non-participating / empty groups
+		re := qs(g.regex(2 + g.r.Intn(2)))
+		if g.r.Chance(1, 6) {
+			re = qs(g.pick(groupRegexes))
+		}
+		fl := ""
+		for n := g.r.Intn(3); n > 0; n-- {
+			fl += string("gixsnlp"[g.r.Intn(7)])
+		}
+		if g.r.Chance(1, 2) && !strings.Contains(fl, "g") {
+			fl += "g"
+		}
+		flags := qs(fl)
+		rep := g.pick([]string{"\"<\\(.x)>\"", "\"\\(.x // \"-\")\\(.y // \"-\")\"", "\"[\\(.)]\"", "\"\"", "(\"1\",\"2\")", "\"\\(.x?)\"", ".x", "\"\\(.n)\""})
+		f := g.pick([]string{"match(" + re + "; " + flags + ")", "[match(" + re + "; " + flags + ")]", "[match(" + re + "; " + flags + ") | .captures[] | [.offset, .length, .string, .name]]", "match(" + re + ")",
+			"test(" + re + "; " + flags + ")", "capture(" + re + "; " + flags + ")", "[capture(" + re + "; " + flags + ")]", "capture(" + re + ")", "[scan(" + re + "; " + flags + ")]", "[scan(" + re + ")]", "scan(" + re + ")",
+			"[splits(" + re + "; " + flags + ")]", "[splits(" + re + ")]", "split(" + re + "; " + flags + ")", "split(" + re + "; null)", "sub(" + re + "; " + rep + "; " + flags + ")", "sub(" + re + "; " + rep + ")",
+			"gsub(" + re + "; " + rep + "; " + flags + ")", "gsub(" + re + "; " + rep + ")", "[match(" + re + "; \"g\") | .offset]", "[match(" + re + "; \"g\").captures | map(.offset)]",
+			"match([" + re + ", " + flags + "])", "[.[]? | strings | match(" + re + "; " + flags + ")]", "ascii_downcase | [match(" + re + "; \"g\")] | length", "[match(" + re + ", " + qs(g.regex(2)) + "; \"g\")]"})
+		var in any = g.subject()
+		if g.r.Chance(1, 12) {
+			in = []any{g.subject(), g.subject(), g.scalar()}
 		}
 		return g.wrap(f), in
 	}
@@ -838,4 +868,72 @@ func (g *gen) structuredCase(k, size int) (string, any) {
 		s = "limit(5; " + s + ")"
 	}
 	return g.wrap(s), g.numArray(size, 10)
+}
+
+
+// ---------------------------------------------------------------------------------------------
+// a small regex grammar over the alphabet {a, b, c, á, é, .}: alternations of groups under * + {n},
+// nested groups, optional groups that do not participate, empty-matching groups, named and unnamed mixed
+
+const nFamilies = 13
+
+var groupRegexes = []string{"(?:(a)|(b))*", "((a)|(b))+", "(a|(b))*(c)?", "(?:(?<x>a)|(?<y>b))*", "((?<x>a)|(b))*", "(b)|(a)", "(?:(b)|(a))+", "((a*)|(b))*", "(a)?(b)?(a)?", "(?:(á)|(b))*", "(?:(a)|(é))+",
+	"(()|a)+", "(a|())*b", "((a)|(b)|(c)){2}", "(?:(a)|(b)){1,3}", "(?<x>(?<y>b)|a)*", "(?:a(b)?|(c))*", "((?:(a)|b)+)", "(?:(?:(a))|(?:(b)))*", "(a)*(b)*(a)*", "(?:(a)(b)?)*", "(?:(b)(?:(a)|c))*", "(.)(?:(a)|(b))*\\b?"}
+
+func (g *gen) regexAtom() string {
+	return g.pick([]string{"a", "b", "c", "á", "é", ".", "a", "b", "[ab]", "[^a]", "", "\\w", "a?", "b*", "\\b", "^", "$"})
+}
+
+func (g *gen) regex(depth int) string {
+	if depth <= 0 {
+		return g.regexAtom()
+	}
+	switch g.r.Intn(12) {
+	case 0, 1: // alternation of capture groups under a quantifier
+		n := 2 + g.r.Intn(2)
+		alts := make([]string, n)
+		for i := range alts {
+			alts[i] = g.group(g.regex(depth - 1))
+		}
+		open := g.pick([]string{"(?:", "(", "(?<o>"})
+		return open + strings.Join(alts, "|") + ")" + g.pick([]string{"*", "+", "{2}", "{1,3}", "*?", "+?", "", "?"})
+	case 2:
+		return g.group(g.regex(depth-1)) + g.pick([]string{"?", "*", "", "+", "{0,2}"})
+	case 3:
+		return g.regex(depth-1) + g.regex(depth-1)
+	case 4:
+		return g.regex(depth-1) + "|" + g.regex(depth-1)
+	case 5: // a group that need not participate, followed by one that does
+		return g.group(g.regexAtom()) + "?" + g.group(g.regex(depth-1))
+	case 6: // empty-matching group
+		return g.group(g.pick([]string{"", "a*", "b?", "()", "|a"})) + g.regex(depth-1)
+	case 7: // nested
+		return g.group(g.group(g.regex(depth-1)) + g.pick([]string{"", "|", "|b", "*"}) + g.group(g.regexAtom()))
+	case 8:
+		return "(?:" + g.regex(depth-1) + ")" + g.pick([]string{"*", "+", "?", "{2}"})
+	}
+	return g.regexAtom()
+}
+
+func (g *gen) group(inner string) string {
+	switch g.r.Intn(5) {
+	case 0:
+		return "(?<" + g.pick([]string{"x", "y", "n", "x1"}) + ">" + inner + ")"
+	case 1:
+		return "(?:" + inner + ")"
+	}
+	return "(" + inner + ")"
+}
+
+// subjects over the same alphabet, including look-alike multi-byte ones
+func (g *gen) subject() string {
+	if g.r.Chance(1, 4) {
+		return g.pick([]string{"ba", "ab", "bá", "éa", "aéb", "", "a", "b", "abcabc", "bab", "cba", "ááb", "a\xffb", "bb", "aab", "b\u00e9a", "a\nb"})
+	}
+	n := g.r.Intn(6)
+	var sb strings.Builder
+	for i := 0; i < n; i++ {
+		sb.WriteString(g.pick([]string{"a", "b", "c", "á", "é", "a", "b", " "}))
+	}
+	return sb.String()
 }
